@@ -19,8 +19,10 @@ VERIF = os.path.dirname(os.path.dirname(os.path.abspath(__file__)))
 REPO = os.environ.get("VERIF_REPO", "/repo")
 SPEC = os.path.join(VERIF, "spec")
 HARNESS = os.path.join(VERIF, "harness")
-EVIDENCE = os.path.join(VERIF, "evidence")
-REPLAYS = os.path.join(VERIF, "replays")
+# checks run against a scratch tree (seeded changes) must not overwrite the committed evidence
+_alt = os.environ.get("VERIF_NO_EVIDENCE")
+EVIDENCE = os.path.join(VERIF, "evidence") if not _alt else os.path.join(tempfile.gettempdir(), "verif-scratch-evidence")
+REPLAYS = os.path.join(VERIF, "replays") if not _alt else os.path.join(tempfile.gettempdir(), "verif-scratch-replays")
 KNOWN = os.path.join(VERIF, "known_findings.txt")
 NCPU = os.cpu_count() or 4
 
